@@ -19,7 +19,8 @@ Effective(requested) == IF requested = 0 THEN DefaultKeepAlive ELSE requested
 
 CONSTANTS Gaps,        \* gaps between packets that keep the connection alive (< 10 units, i.e. < K)
           LongGaps,    \* gaps well over 1.5 K: the connection must be gone afterwards
-          MaxSends, Kinds
+          MaxSends, Kinds,
+          BacklogHold  \* how long a client that does not read keeps a backlog of packets on offer (> 12 units)
 
 VARIABLES now, last, up, sends, will, hist,
           fed        \* the client is subscribed to a topic on which somebody else publishes all the time: what the broker
@@ -39,11 +40,17 @@ Init == now = 0 /\ last = 0 /\ up = TRUE /\ sends = 0 /\ will = FALSE /\ hist = 
 Partial(k) == k \in {"part1", "part3", "partbig"}
 MidPacket == hist # <<>> /\ Partial(hist[Len(hist)].kind)
 
+\* "backlog": the client offers more PINGREQs than the broker can take while the client reads none of the answers (the
+\* rings to and from the client fill up and the broker stops reading), keeps them on offer for BacklogHold units - longer
+\* than the deadline of 1.2 K - and then reads all the answers, so that the rest is taken: there were bytes of the client
+\* waiting to be read all the time, it was never silent (what counts is when the client sends, not when the broker reads)
+Hold(kind) == IF kind = "backlog" THEN BacklogHold ELSE 0
+
 \* the client lets g grid units pass and then sends a packet of the given kind
 Send(g, kind) ==
   /\ up /\ sends < MaxSends /\ g \in Gaps /\ ~MidPacket
-  /\ now' = now + g /\ last' = now + g /\ sends' = sends + 1
-  /\ hist' = Append(hist, [gap |-> g, kind |-> kind, expect |-> "up", fed |-> fed, prior |-> prior])
+  /\ now' = now + g + Hold(kind) /\ last' = now + g + Hold(kind) /\ sends' = sends + 1
+  /\ hist' = Append(hist, [gap |-> g, kind |-> kind, expect |-> "up", fed |-> fed, prior |-> prior, hold |-> Hold(kind)])
   /\ UNCHANGED <<up, will, fed, prior>>
 
 \* the client stays silent for g units: the deadline passes, the broker drops the connection
@@ -51,7 +58,7 @@ Send(g, kind) ==
 Silence(g) ==
   /\ up /\ g \in LongGaps
   /\ now' = now + g /\ up' = FALSE /\ will' = TRUE
-  /\ hist' = Append(hist, [gap |-> g, kind |-> "none", expect |-> "dropped", fed |-> fed, prior |-> prior])
+  /\ hist' = Append(hist, [gap |-> g, kind |-> "none", expect |-> "dropped", fed |-> fed, prior |-> prior, hold |-> 0])
   /\ UNCHANGED <<last, sends, fed, prior>>
 
 Next == (\E g \in Gaps, k \in Kinds : Send(g, k)) \/ (\E g \in LongGaps : Silence(g))
